@@ -233,7 +233,9 @@ def residual_routine_contract():
             out.append(Instance(f"m={m},given={k},num={num},nargs={nargs}", make, names=lambda a, kw: {id(a[1]): "t0", id(a[2]): "w", id(a[3]): "y", **{id(x): f"u{i}" for i, x in enumerate(a[0])}}))
         return out
 
-    return Contract(name=f"{MOD}:jetexpand_residual", module=MOD, qualname="jetexpand_residual", wrap=wrap, ensures=ensures, instances=instances,
+    from contracts import gauss_newton  # the solver contract assumed above has its home proofs there (C19)
+
+    return Contract(name=f"{MOD}:jetexpand_residual", module=MOD, qualname="jetexpand_residual", wrap=wrap, ensures=ensures, instances=instances, callees=gauss_newton.contracts(),
                     doc="given coefficients are returned unchanged and are not degrees of freedom; every added coefficient is one; the objective handed to the least-squares solver is the residual of the leading coefficients at the requested time; start point and prior mean are (inits, 0)")
 
 
